@@ -247,26 +247,41 @@ Proof. exact l2tp_dispatch_ppp_total. Qed.
 Print Assumptions C07_l2tp_ppp_dispatch_total.
 
 (* ---- "malformed input is ... ignored": a hostile datagram from the RADIUS server's address must not consume the
-   outstanding request (plugins/auth/radius/transport.go readLoop: verify first, clear the slot after) ---- *)
+   outstanding request (plugins/auth/radius/transport.go readLoop: parse, look up, verify with isAuthenticReply, and only then
+   clear the slot).  D1, D2 are the MD5 / HMAC-MD5 computations (request authenticator -> datagram -> expected digest);
+   [accepts] is the real acceptance predicate over the datagram's bytes. ---- *)
 Theorem C07_radius_junk_datagrams_ignored :
-  forall ds p, forallb (fun d => negb (is_genuine d)) ds = true -> rad_run false p ds = (p, []).
+  forall D1 D2 ds p, (forall raw, In raw ds -> accepts D1 D2 p raw = false) -> rad_run D1 D2 false p ds = (p, []).
 Proof. exact rad_junk_ignored. Qed.
 Print Assumptions C07_radius_junk_datagrams_ignored.
 Theorem C07_radius_genuine_reply_survives_junk :
-  forall junk id rest p, forallb (fun d => negb (is_genuine d)) junk = true -> pend_has id p = true ->
-  exists os, snd (rad_run false p (junk ++ DGenuine id :: rest)) = id :: os /\
-             fst (rad_run false p (junk ++ [DGenuine id])) = pend_del id p.
+  forall D1 D2 junk g rest p, (forall raw, In raw junk -> accepts D1 D2 p raw = false) -> accepts D1 D2 p g = true ->
+  exists os, snd (rad_run D1 D2 false p (junk ++ g :: rest)) = g :: os /\
+             fst (rad_run D1 D2 false p (junk ++ [g])) = pdel (nth 1 g 0) p.
 Proof. exact rad_genuine_after_junk. Qed.
 Print Assumptions C07_radius_genuine_reply_survives_junk.
+(* what acceptance means on the bytes: at least the declared length (>= 20) is present, bytes 4..20 of the declared part are the
+   Response-Authenticator digest, and a Message-Authenticator attribute, when present, carries the HMAC digest *)
+Theorem C07_radius_authentic_sound :
+  forall raw d1 d2, authentic raw d1 d2 = true ->
+  exists raw', sl 0 (rad_declared raw) raw = Ok raw' /\ 20 <= rad_declared raw /\ sl 4 20 raw' = Ok d1 /\
+    (forall off, find_attr80 raw' = Ok (Some off) -> sl off (off + 16) raw' = Ok d2).
+Proof. exact authentic_sound. Qed.
+Print Assumptions C07_radius_authentic_sound.
+(* clearing the slot before the verification (seeded C07_q3) loses the genuine reply; also the non-vacuity witness:
+   a forged datagram that is rejected and an authentic one that is accepted *)
 Theorem C07_radius_claim_before_verify_refuted :
-  rad_run true [1] [DJunk 1; DGenuine 1] = ([], []) /\ rad_run false [1] [DJunk 1; DGenuine 1] = ([], [1]).
+  let D := fun (_ _ : bytes) => repeat 7 16 in
+  rad_run D D true [(1, [])] [ex_forged; ex_genuine] = ([], []) /\
+  rad_run D D false [(1, [])] [ex_forged; ex_genuine] = ([], [ex_genuine]) /\
+  accepts D D [(1, [])] ex_forged = false /\ accepts D D [(1, [])] ex_genuine = true.
 Proof. exact rad_claim_first_refuted. Qed.
 Print Assumptions C07_radius_claim_before_verify_refuted.
-Example C07_radius_junk_nonvacuous :
-  forallb (fun d => negb (is_genuine d)) (dgrams_of [0; 1; 2; 3; 4; 5; 6]) = true /\ pend_has 1 [1] = true /\
-  snd (rad_run false [1] (dgrams_of [0; 6; 2; 9; 0])) = [1].
-Proof. exact rad_nonvacuous. Qed.
-Print Assumptions C07_radius_junk_nonvacuous.
+(* the CoA trim is safe on every datagram the (reference transcription of the) third-party parser accepts; the transcription
+   is compared with layeh radius.Parse by the `radparse` cases *)
+Theorem C07_coa_trim_total_after_parse : forall raw, rad_parse_ok raw = true -> is_crash (coa_trim raw) = false.
+Proof. exact coa_trim_total_after_parse. Qed.
+Print Assumptions C07_coa_trim_total_after_parse.
 
 (* ---- "never make a handler run without bound": bounded worker pools / hand-off queues on the receive path
    (pppoe dhcp6Sem under the session lock, pppoe raKicks, ipoe l2gwChan), acquired with a non-blocking select ---- *)
